@@ -52,7 +52,7 @@ class C11(Prop):
         i = 0
         for (d, m) in grids:
             for name in MODELS:
-                if any(s[1] % m or s[2] % m for s in MODELS[name]):
+                if not neox.divisible(MODELS[name], m):
                     continue
                 for clip in (False, True):
                     for prediv in (False, True):
